@@ -126,6 +126,19 @@ def write_params(d, pkg):
 
 
 UNIT_MJY = {'mJy': 1, 'Jy': 1000}
+KPC_CM = 3.0856775814913674e21          # (1 kpc).to(cm) in astropy: the distance every harness SED / cube is given
+
+
+def to_mjy(pkg, x, nu):
+    """exact value in mJy of the number x stored in the package's flux unit at frequency nu (Hz), for a source at 1 kpc"""
+    unit = pkg.get('flux_unit', 'mJy')
+    if unit in UNIT_MJY:
+        return F(x) * UNIT_MJY[unit]
+    if unit == 'erg / (cm2 s)':          # nu F_nu
+        return F(x) / F(nu) * 10 ** 26
+    if unit == 'erg / s':                # nu L_nu
+        return F(x) / (F(KPC_CM) * F(KPC_CM)) / F(nu) * 10 ** 26
+    raise ValueError(unit)
 
 
 def make_sed(pkg, n, unit=None):
@@ -225,5 +238,6 @@ def filt_pts(pkg, k, norm_resp=None):
 def sedm(pkg, n, order=None):
     sd = pkg['seds'][n]
     o = order or sd['order']
-    k = UNIT_MJY[pkg.get('flux_unit', 'mJy')]
-    return [key(n), [F(x) for x in _ord(sd.get('nu', pkg['nu']), o)], [[F(x) * k for x in _ord(row, o)] for row in sd['flux']], [[F(x) * k for x in _ord(row, o)] for row in sd['err']]]
+    nus = _ord(sd.get('nu', pkg['nu']), o)
+    return [key(n), [F(x) for x in nus], [[to_mjy(pkg, x, v) for x, v in zip(_ord(row, o), nus)] for row in sd['flux']],
+            [[to_mjy(pkg, x, v) for x, v in zip(_ord(row, o), nus)] for row in sd['err']]]
